@@ -276,6 +276,10 @@ def main():
         total_races += nrep
         for k, v in classes.items():
             race_classes.setdefault(k, v)
+        if res is not None and r["rc"] == 5:
+            notes += res.get("notes") or []
+            broken.append("child %s: a library call did not return within the in-child watchdog (deadlocks are C08's verdict; this run is not conclusive): %s" % (r["name"], "; ".join((res.get("notes") or ["?"])[:1])[:300]))
+            continue
         if res is not None and r["rc"] in (0, 3):
             evaluations += res.get("evaluations", 0)
             distinct.update(res.get("distinct") or [])
